@@ -281,13 +281,19 @@ def run_unit(name, tier="quick", config="A", opts=None, keep=None):
         res["lost_anchors"] = [d for (_, d) in getattr(asm, "lost", [])]
         suspect = [f for f in failed if f["function"] in lost_fns]
         failed = [f for f in failed if f["function"] not in lost_fns]
+        for (pth, why) in getattr(asm, "lost", []):
+            if why.startswith("not extractable"):
+                loc = next(("%s:%d" % (f_, l_) for (_, _, p_, f_, l_, m_) in asm.fn_ranges if p_ == pth), None)
+                suspect.append(failed_obligation(pth, "other", "function body outside the extraction rules: " + why[:200],
+                                                 location=loc))
+                undec.append("%s: %s" % (pth, why[:200]))
         seen_fn = set()
         for f in rejected_in:
             if f["function"] not in seen_fn:
                 seen_fn.add(f["function"])
                 suspect.append(f)
         res["suspect"] = suspect
-        if suspect and not failed:
+        if suspect and not failed and not undec:
             undec.append("proof hints lost their anchors (%s); obligations that now fail there are undecided: %s"
                          % ("; ".join(res["lost_anchors"])[:600],
                             ", ".join("%s [%s]" % (f["function"], f["kind"]) for f in suspect)[:600]))
